@@ -82,6 +82,10 @@ EXPLANATION += (
     ' Round 12: is_exposed answers False early only where the walk over the ancestors ends (R-MUST/exposure-walks-ancestors).'
 )
 
+EXPLANATION += (
+    ' Round 14: the helper that makes the path handed to is_exposed returns Path(word minus removed characters) on every path (R-SAMEVAL/word-tested-as-is).'
+)
+
 RULE_TEXT = (
     "one obligation per emitted value (config, log, log file, module), "
     "per removed key, per path interpolation site")
@@ -821,6 +825,17 @@ def _check_rendered_as_text(ctx, fi, joined, part):
     KeyError renders its argument with repr(): line breaks become the two
     characters backslash-n and the text is wrapped in quotes, so a path on
     a line of its own is no longer a word and is not replaced."""
+    if getattr(part, 'conversion', -1) in (ord('r'), ord('a')):
+        # {path!r}: a str is wrapped in quotes (which the sanitiser strips)
+        # but a pathlib.Path is written as PosixPath('/abs/...'): the word
+        # starts with `PosixPath(` and is no path any more
+        ctx.ob('R-ROLE/path-in-message/rendered-as-text',
+               f'{fi.qual}:#{joined.values.index(part)}@'
+               f'{_ctx_text(joined)}!r', fi.loc(joined), False,
+               f'`{{{unparse(part.value)}!r}}` writes the repr of the path '
+               'into the message; for a pathlib.Path that is '
+               "`PosixPath('/abs/...')`, one word that is_exposed does not "
+               'recognise as a path, so the absolute path reaches the log')
     p_ = getattr(joined, '_parent', None)
     while p_ is not None and not isinstance(
             p_, (ast.Raise, ast.stmt)):
